@@ -179,6 +179,12 @@ class C20(Prop):
                             return ["n", v.numerator, v.denominator]
                         ixs[d] = ["sc", near()] if rng.random() < 0.5 else ["li", [near() for _ in range(rng.randint(1, 3))]]
                         kinds[d] = "tol"
+            if "tol" not in st and rng.random() < 0.25:
+                # a single-dimension index given with the axis= keyword (by name or by position)
+                d = rng.randrange(len(arr["axes"]))
+                st["spelling"] = "take_position" if pos else "take"
+                st["index"] = {"form": "axis", "ix": ixs[d], "axis": rng.choice([["name", arr["axes"][d]["name"]], ["pos", d], ["pos", d - len(arr["axes"])]])}
+                st["_ixkinds"] = [kinds[d]]
             steps.append(st)
         return {"op": "history", "array": arr, "steps": steps, "seed": i}
 
